@@ -1773,6 +1773,7 @@ CONSTANTS
   LeakMemo = %s
   LeakCache = %s
   LeakOrder = %s
+  LeakScratch = FALSE
 %s
 CHECK_DEADLOCK FALSE
 """
@@ -1805,6 +1806,12 @@ def c08(ctx):
         if r["status"] != "invariant":
             raise Broken("Determ.tla does not reject the leak '%s'" % name)
         rejected.append("leak-" + name)
+    r = ctx.tlc("Determ", "Determ_mc.cfg", name="determ-guard-scratch",
+                cfg_text=(DETERM_CFG % ("Spec", tla_set(["mul"]), tla_set(["s16", "s32"]), tla_set(["default"]), 3, "{1}",
+                                        "FALSE", "FALSE", "FALSE", "INVARIANT Deterministic")).replace("LeakScratch = FALSE", "LeakScratch = TRUE"))
+    if r["status"] != "invariant":
+        raise Broken("Determ.tla does not reject process-wide scratch shared by concurrent compilations")
+    rejected.append("leak-scratch")
     ctx.cov["spec_rejects_deviations"] = rejected
     # (G) histories through real compilations in separate processes
     combos = [(["mul"], ["s16", "s32", "s64"], ["default"], 5, 8),
@@ -1830,6 +1837,14 @@ def c08(ctx):
         if g["status"] != "ok" or not g["cases"]:
             raise Broken("DetermGen failed: %s\n%s" % (g["status"], g["out"][-2000:]))
         hists += g["cases"]
+    # histories of Determ.tla that simulation rarely draws: four compilations of one request at the same time in one
+    # process, next to a lone one, for two programs
+    for prog, sizes in (("libs", "none"), ("mul", "s32"), ("arith", "none")):
+        ops = [{"proc": 1, "share": "par", "prog": prog, "sizes": sizes, "vals": "default"} for _ in range(4)]
+        ops.append({"proc": 1, "share": "fresh", "prog": prog, "sizes": sizes, "vals": "default"})
+        ops += [{"proc": 2, "share": "par", "prog": prog, "sizes": sizes, "vals": "default"},
+                {"proc": 2, "share": "par", "prog": "mul", "sizes": "s16", "vals": "default"}]
+        hists.append({"ops": ops})
     hf = os.path.join(ctx.tmp, "c08hist.ndjson")
     write_ndjson(hf, hists)
     rf = os.path.join(ctx.tmp, "c08res.ndjson")
